@@ -14,6 +14,7 @@ import "sync/atomic"
 type Hooks struct {
 	Acquire  func(site string, try func() bool, lock func())
 	Released func(site string)
+	Yield    func(site string) // scheduling point in front of an operation on lock-free shared state
 }
 
 var hooks atomic.Pointer[Hooks]
@@ -38,4 +39,13 @@ func Unlock(site string, unlock func()) {
 	if h := hooks.Load(); h != nil {
 		h.Released(site)
 	}
+}
+
+// Y is a scheduling point in front of a call X.M(args): the rewritten code calls
+// Y("site", X.M)(args). Without a scheduler it only hands the method value back.
+func Y[F any](site string, f F) F {
+	if h := hooks.Load(); h != nil && h.Yield != nil {
+		h.Yield(site)
+	}
+	return f
 }
